@@ -10,7 +10,7 @@ def run(ctx):
         ctx.run_shards(b, "TestVerifC04", 16, 900 if ctx.tier == "quick" else 3400, "c04")
     return driver.finish(
         ctx, "fault_enumeration",
-        "six monitors. (A) wire observer: real client <-> recording relay <-> real server for carrier in {tcp, unix, ws, udp(KCP), dns, tcp+tls, unix+tls, wss, "
+        "seven monitors. (A) wire observer: real client <-> recording relay <-> real server for carrier in {tcp, unix, ws, udp(KCP), dns, tcp+tls, unix+tls, wss, "
         "stdio and stdio+tls (no relay: flags only), udp+secret} x server certificate {none, good, untrusted|wronghost|expired} x client --secure x client --insecure (+ client without CA); "
         "the application payload is a random 24-byte marker repeated 400x (80x over DNS) in both directions; the capture is de-framed (websocket frames unmasked, "
         "DNS questions/answers decoded with the repository's helpers under every codec, KCP datagrams searched as they are) and searched for any 16-byte window of "
@@ -41,9 +41,17 @@ def run(ctx):
         "endpoint must not answer the plaintext handshake with 200/101, and neither kind may produce a server.session event or let the recording target accept a connection / receive the marker; closing, an error "
         "status, a TLS alert or silence are all accepted. The forms of one endpoint run side by side (a stdio+tls endpoint that gave up leaves its peer waiting: one stall window for all); session events of a group "
         "that no case accounts for make the group run again case by case. Control per carrier: the same script without the failing step against a plain endpoint must reach the target (else inconclusive). "
+        "(G) second attempts: the real client command with ONE upstream written with a TLS scheme (tcp+tls, unix+tls, https://, wss://) x --secure x --insecure against a scripted hostile peer that spoils the first K "
+        "physical connections (K=1, some K=2; thorough K=1..3) - closed at once, reset at once, closed / reset after the ClientHello, truncated ServerHello then closed, fatal alert then closed, the plaintext 400 of a plain "
+        "socketace server then closed - and from then on is a willing PLAINTEXT socketace endpoint on the same address (ClientHello and plaintext are told apart by the first byte; a ClientHello is closed), or that answers the "
+        "websocket request inside genuine TLS (certificate the client can verify) with 301/302/303/307/308 (quick: one code per case, by seed) and Location = absolute http:// URL on another port / on the same port, absolute ws:// URL, "
+        "scheme-relative URL, or with 503, a plaintext websocket+socketace endpoint waiting at every target; the application connects K+3 times with the marker payload. Oracle: the peer never does TLS on a connection it serves socketace on, "
+        "so the marker must never reach it (raw bytes of every connection and the unmasked websocket tunnel payload), no logical connection may be served, and the client must hold no session afterwards, least of all one it calls secure; "
+        "refusing the application every time is the only accepted outcome. Control per transport: K=0 and the upstream written with the plain scheme must be served and the peer must see the marker (else inconclusive). "
         "Stall rule, no deadlines. "
-        "Distinct = (monitor, carrier/transport, certificate, flags, script, peer, listener list, eager applications, place of the TLS handshake, failing step); non-trivial = the case produced a wire capture / reached the scripted server / "
-        "delivered its failing step to the endpoint.",
+        "Distinct = (monitor, carrier/transport, certificate, flags, script, peer, listener list, eager applications, place of the TLS handshake, failing step, first attempt, K, redirect status); non-trivial = the case produced a wire capture / reached the scripted server / "
+        "delivered its failing step to the endpoint / "
+        "had its first attempt spoiled or redirected by the peer.",
         ["loopback sockets and in-process pipes stand for the network",
          "interpretation (DESIGN.md): a hand-written client that ignores an offered StartTLS against the real server is outside the property",
          "a capability token that only resembles StartTLS (misspelled, hyphenated, with parameter) or sits on a second Capabilities line is not an offer",
